@@ -50,6 +50,9 @@ def compare_plotfile(outdir, exp, fails, what, data_mode="bits", minmax="rows", 
     if not np.array_equal(np.asarray(info["geo_lo"], float), np.asarray(exp["geo_lo"], float)) or \
             not np.array_equal(np.asarray(info["geo_hi"], float), np.asarray(exp["geo_hi"], float)):
         bad("domain bounds differ", f"{info['geo_lo']} {info['geo_hi']} vs {exp['geo_lo']} {exp['geo_hi']}")
+    ref = list(info.get("ref") or [])
+    if len(ref) < exp["L"] or any(int(r) != 2 for r in ref[: exp["L"]]):
+        bad("refinement-ratio line does not give a ratio of 2 for every level transition", f"{ref} for finest level {exp['L']}")
     for lv in range(exp["L"] + 1):
         lvi = info["levels"][lv]
         if not np.array_equal(np.asarray(info["n"][lv]), np.asarray(exp["n"][lv])):
